@@ -317,7 +317,15 @@ let () =
                     max(expired buffer, max_borrowed) publishers it was connected to were dropped *)
                  ignore (lost_delivery w0 w1);
                  List.iter (fun ((p, sb), c) ->
-                   if sub_live w0 sb && sub_live w1 sb && c_has_data c && getc w1 p sb = None then begin
+                   (* samples of this very connection that the back-pressure handler script received INSIDE this
+                      operation were delivered, not lost: the connection may then be released empty *)
+                   let taken_by_handler =
+                     (match mo with
+                      | BWith (_, tr) ->
+                        List.length (List.filter (function HvRecv (s, _, origin, _) -> s = sb && origin = p | _ -> false) tr)
+                      | _ -> 0) in
+                   if sub_live w0 sb && sub_live w1 sb && c_has_data c && getc w1 p sb = None
+                      && taken_by_handler < List.length c.c_sub then begin
                      let ps = string_of_int (int_of_nat p) and ss = string_of_int (int_of_nat sb) in
                      let gone = Hashtbl.mem vanished ps and conn = Hashtbl.mem touched (ss, ps) in
                      incr mm_spec;
